@@ -916,6 +916,8 @@ int parse_instruction_riscv(AsmContext *asm_context, char *instr)
 
   if (operand_count < 0) { return -1; }
 
+  const bool rm_given = modifiers.rm != -1;
+
   if (strcmp(instr_case, "li") == 0)
   {
     return get_operands_li(asm_context, operands, operand_count, instr, instr_case);
@@ -966,9 +968,12 @@ int parse_instruction_riscv(AsmContext *asm_context, char *instr)
       }
 
       // FIXME: Need to re-evaluate this to figure out why it's here.
-      if (modifiers.rm != -1 && table_riscv[n].type < OP_COMP_RD_NZUIMM)
+      // rm_given: a rounding mode operand was parsed (modifiers.rm is also
+      // set to the default 7 below, which must not count here).
+      if (rm_given && table_riscv[n].type < OP_COMP_RD_NZUIMM)
       {
-        if (operands[operand_count - 1].type != OPERAND_RM ||
+        if (operand_count == 0 ||
+            operands[operand_count - 1].type != OPERAND_RM ||
             (table_riscv[n].type != OP_FP_FP_RM &&
              table_riscv[n].type != OP_R_FP_RM &&
              table_riscv[n].type != OP_FP_R_RM &&
